@@ -104,7 +104,7 @@ def newResult (m : List Rat) (vs : List Nat) : Interaction :=
 
 theorem new_eq (m : List Rat) (vs : List Nat) :
     Interaction.new m vs =
-      if (∀ x ∈ m, 0 ≤ x) ∧ vs ≠ [] ∧ m.length = 4 ^ vs.length then .ok (newResult m vs)
+      if (∀ x ∈ m, 0 ≤ x) ∧ (vs ≠ [] ∧ vs.Nodup) ∧ m.length = 4 ^ vs.length then .ok (newResult m vs)
       else .err := by
   unfold Interaction.new
   by_cases hneg : (m.any (· < 0)) = true
@@ -125,6 +125,9 @@ theorem new_eq (m : List Rat) (vs : List Nat) :
       · simp [hemp]
       · have : vs.isEmpty = false := by simpa using hemp
         simp only [this]
+        by_cases hnd : vs.Nodup
+        case neg => simp [hnd]
+        simp only [hnd, not_true_eq_false, if_false]
         by_cases hn : n = vs.length
         · subst hn
           have hm : mapP (List.range (2 ^ vs.length)) (fun row => getP m (row * 2 ^ vs.length + row))
@@ -133,7 +136,7 @@ theorem new_eq (m : List Rat) (vs : List Nat) :
             intro a ha
             have : a < 2 ^ vs.length := by simpa using ha
             exact getP_of_lt (by rw [hlen]; exact diag_index_lt this)
-          simp [hm, hemp, hlen, newResult]
+          simp [hm, hemp, hlen, hnd, newResult]
           exact hall
         · have : ¬ m.length = 4 ^ vs.length := by
             intro h; rw [hlen] at h
@@ -197,7 +200,7 @@ def newDiagonalResult (m : List Rat) (vs : List Nat) : Interaction :=
 
 theorem newDiagonal_eq (m : List Rat) (vs : List Nat) :
     Interaction.newDiagonal m vs =
-      if (∀ x ∈ m, 0 ≤ x) ∧ vs ≠ [] ∧ m.length = 2 ^ vs.length then .ok (newDiagonalResult m vs)
+      if (∀ x ∈ m, 0 ≤ x) ∧ (vs ≠ [] ∧ vs.Nodup) ∧ m.length = 2 ^ vs.length then .ok (newDiagonalResult m vs)
       else .err := by
   unfold Interaction.newDiagonal
   by_cases hneg : (m.any (· < 0)) = true
@@ -218,9 +221,12 @@ theorem newDiagonal_eq (m : List Rat) (vs : List Nat) :
       · simp [hemp]
       · have : vs.isEmpty = false := by simpa using hemp
         simp only [this]
+        by_cases hnd : vs.Nodup
+        case neg => simp [hnd]
+        simp only [hnd, not_true_eq_false, if_false]
         by_cases hn : n = vs.length
         · subst hn
-          simp [hemp, hlen, newDiagonalResult]
+          simp [hemp, hlen, hnd, newDiagonalResult]
           exact hall
         · have : ¬ m.length = 2 ^ vs.length := by
             intro h; rw [hlen] at h
@@ -384,13 +390,13 @@ theorem minFold_spec (l : List Rat) (hl : l ≠ []) :
 
 theorem newDiagonalOffset_eq (m : List Rat) (vs : List Nat) :
     Interaction.newDiagonalOffset m vs =
-      if vs ≠ [] ∧ m.length = 2 ^ vs.length then
+      if (vs ≠ [] ∧ vs.Nodup) ∧ m.length = 2 ^ vs.length then
         .ok (newDiagonalResult (m.map (· - (minFold m).getD 0)) vs, (minFold m).getD 0)
       else .err := by
   unfold Interaction.newDiagonalOffset
   simp only []
   rw [newDiagonal_eq]
-  by_cases h : vs ≠ [] ∧ m.length = 2 ^ vs.length
+  by_cases h : (vs ≠ [] ∧ vs.Nodup) ∧ m.length = 2 ^ vs.length
   · have hne : m ≠ [] := by
       intro h0; rw [h0] at h; simp at h
       have := Nat.two_pow_pos vs.length; omega
@@ -400,10 +406,10 @@ theorem newDiagonalOffset_eq (m : List Rat) (vs : List Nat) :
       obtain ⟨y, hy, rfl⟩ := List.mem_map.mp hx
       rw [hd]; simp only [Option.getD_some]
       linarith [hmin y hy]
-    have hc : (∀ x ∈ m.map (· - (minFold m).getD 0), 0 ≤ x) ∧ vs ≠ [] ∧
+    have hc : (∀ x ∈ m.map (· - (minFold m).getD 0), 0 ≤ x) ∧ (vs ≠ [] ∧ vs.Nodup) ∧
         (m.map (· - (minFold m).getD 0)).length = 2 ^ vs.length := ⟨hall, h.1, by simpa using h.2⟩
     rw [if_pos hc, if_pos h]; rfl
-  · have hc : ¬ ((∀ x ∈ m.map (· - (minFold m).getD 0), 0 ≤ x) ∧ vs ≠ [] ∧
+  · have hc : ¬ ((∀ x ∈ m.map (· - (minFold m).getD 0), 0 ≤ x) ∧ (vs ≠ [] ∧ vs.Nodup) ∧
         (m.map (· - (minFold m).getD 0)).length = 2 ^ vs.length) := by
       intro hc; exact h ⟨hc.2.1, by simpa using hc.2.2⟩
     rw [if_neg hc, if_neg h]; rfl
@@ -501,7 +507,7 @@ theorem newOffset_spec (m : List Rat) (vs : List Nat) :
       refine ⟨n, hl, hn, ?_⟩
       obtain ⟨d, m', _, _, hl', _, _, heq⟩ := key n hl
       rw [heq, new_eq]
-      have : ¬ ((∀ x ∈ m', 0 ≤ x) ∧ vs ≠ [] ∧ m'.length = 4 ^ vs.length) := by
+      have : ¬ ((∀ x ∈ m', 0 ≤ x) ∧ (vs ≠ [] ∧ vs.Nodup) ∧ m'.length = 4 ^ vs.length) := by
         intro hc; rw [hl', hl] at hc
         exact hn (Nat.pow_right_injective (by omega : 2 ≤ 4) hc.2.2)
       rw [if_neg this]; rfl
